@@ -2124,7 +2124,12 @@ def rule_gkf_escape(ctx):
         raise AnalysisBroken("GKFparser::startElement: local initialised from tag() not found")
     hier = {cls, "GNU_gama::CoreParser", "GNU_gama::BaseParser"}
     sp = StateProp2(fx, hierarchy=hier, error_value=A0.error)
-    configs, _ = A0.explore()
+    # reachability from StateProp2's own transitions (tracks call results through locals as well)
+    A1 = StackAutomaton("GKFparser", A0.states, A0.tags,
+                        lambda s, t: sp.run2(start_fn, ("c", s, "in"), {tag_local: t}),
+                        lambda s, top: sp.run2(end_fn, ("c", s, "in"), {}),
+                        A0.error, A0.start_state)
+    configs, _ = A1.explore()
     reach = {s for s, _ in configs}
     n = 0
     for s in sorted(reach):
